@@ -79,6 +79,13 @@ lane() {
       rm -rf "$OUT/replays"
       timeout 1500 "$BIN" check --tier quick --threads "${SENS_THREADS:-6}" --seed "${VERIF_SEED:-1}" --evidence "$OUT/ev.json" --replay-dir "$OUT/replays" \
         --real-bins "$G/target/realbins/debug" --real-cwd "$G/target/realws/unic-langid-impl" --becheck "$L/becheck" >"$OUT/log" 2>&1; local rc=$?
+      if [ $rc -gt 2 ] && [ $rc -ne 124 ]; then
+        # as run.sh does: the simulator process died -> again with every run in a forked child
+        fallback="$fallback [process died with status $rc: repeated with a child process per run]"
+        rm -rf "$OUT/replays"
+        GENSIM_ISOLATE=1 timeout 1500 "$BIN" check --tier quick --threads "${SENS_THREADS:-6}" --seed "${VERIF_SEED:-1}" --evidence "$OUT/ev.json" --replay-dir "$OUT/replays" \
+          --real-bins "$G/target/realbins/debug" --real-cwd "$G/target/realws/unic-langid-impl" --becheck "$L/becheck" >"$OUT/log" 2>&1; rc=$?
+      fi
       local viol first rp
       viol=$(grep -c '^VIOLATION' "$OUT/log")
       first=$(grep -m1 '^violation:' "$OUT/log" | cut -c1-140)
